@@ -265,7 +265,11 @@ def gen_param_op(rng, b, w, ctx):
     raise ValueError(kind)
 
 
-def gen_history(seed, tier):
+def gen_history(seed, tier, reapply=False):
+    """reapply=True: the settings are put in force once, at the start (a preset or a several-slot set call); from then on
+    an admin task keeps RE-APPLYING EXACTLY THAT CALL while the client passes bare numbers.  Re-applying the settings in
+    force changes nothing, so every bare number still means the unit in force - a setter or loader that passes through
+    other values on the way (reset-then-set) shows as a bare number read in a unit that was never selected."""
     rng = rng_for(seed, "program")
     w = empty_world()
     simgen.gen_pool(rng, w, n_tables=(1, 2), n_dms=(1, 3), n_ammos=(1, 2), n_atmos=(1, 2), n_winds=(0, 3))
@@ -291,8 +295,17 @@ def gen_history(seed, tier):
 
     ctx = {"calc": new_calc(), "shots": shots, "own_ammo": own_ammo}
     n = rng.randint(6, 14)
+    first_flip = None
+    if reapply:
+        if rng.random() < 0.6:
+            first_flip = {"op": "preset", "which": gen.pick(rng, ["metric", "mixed", "imperial", "metric"])}
+        else:
+            first_flip = {"op": "set_units", "slots": {sl: ["enum", simgen.pick_unit(rng, SLOTS[sl][0])]
+                                                       for sl in sorted({simgen.pick_slot(rng) for _ in range(6)})}}
+        b.apply(first_flip)
+        prog.append(first_flip)
     while len(prog) < n:
-        if rng.random() < 0.3:
+        if not reapply and rng.random() < 0.3:
             adm = simgen.gen_units_flip_program(rng, 1)[0]
             b.apply(adm)
             prog.append(adm)
@@ -319,6 +332,8 @@ def gen_history(seed, tier):
             prog.append({"op": "at_dist", "fire": len(prog) - 2,
                          "d": [round(rng.randint(1, 9) * rft / 10 + gen.pick(rng, [0.0, -0.5, 0.5, 1.5, 3.0, 4.5]), 4), "Foot"]})
             continue
+        if reapply and op["op"] in ("gstep", "basic_config"):
+            continue
         if op["op"] in ("gstep", "basic_config"):
             prog.append(op)
             # a calculator created now takes the new global step; keep it usable (>= 0.5 ft in every unit: the bare
@@ -332,12 +347,22 @@ def gen_history(seed, tier):
             continue
         prog.append(op)
     simgen.add_clones(prog, rng, 0.3)
+    if reapply:
+        import copy as _copy
+        admin = [_copy.deepcopy(first_flip) for _ in range(rng.randint(3, 8))]
+        cfg = {"mode": gen.pick(rng, ["cold", "cold", "line"]), "policy": gen.pick(rng, ["uniform", "pct", "boundary"]),
+               "mean_run": gen.pick(rng, [1, 5, 50]), "opcode": False, "pct_depth": rng.randint(1, 3)}
+        simgen.tame_for_line_mode([prog, admin], cfg)
+        return {"seed": seed, "mode7": "history", "reapply": True, "world": w, "programs": [prog, admin],
+                "roles": {"0": "client", "1": "admin"}, "config": cfg, "faults": []}
     cfg = {"mode": gen.pick(rng, ["none", "none", "cold"]), "policy": "serial", "mean_run": 1000, "opcode": False}
     return {"seed": seed, "mode7": "history", "world": w, "programs": [prog], "roles": {"0": "client"}, "config": cfg,
             "faults": []}
 
 
 def gen_spec(seed, tier):
+    if rng_for(seed, "reapply").random() < 0.12:
+        return gen_history(seed, tier, reapply=True)
     rng = rng_for(seed, "mode")
     return gen_race(seed, tier) if rng.random() < 0.4 else gen_history(seed, tier)
 
@@ -438,6 +463,7 @@ def run_case(seed, tier, idx):
         viol = [refine(v, spec, hist) for v in viol]
         rec = record(spec, hist, viol, stats)
     rec["mode7"] = spec["mode7"]
+    rec["reapply"] = bool(spec.get("reapply"))
     rec["bare_args"] = sum(_count_bare(op) for p in spec["programs"] for op in p)
     rec["bare_zero_args"] = sum(len(_bare_zero_params(op)) for p in spec["programs"] for op in p)
     rec["flips"] = sum(1 for p in spec["programs"] for op in p if op.get("op") in
@@ -473,6 +499,7 @@ def summarise(records):
     cov = summarise_sim(records, "C07: non-trivial additionally requires at least one settings flip in the run.")
     cov["runs_race_mode"] = sum(1 for r in records if r["mode7"] == "race")
     cov["runs_history_mode"] = sum(1 for r in records if r["mode7"] == "history")
+    cov["runs_with_settings_reapplied_concurrently_with_bare_numbers"] = sum(1 for r in records if r.get("reapply"))
     cov["bare_number_arguments"] = sum(r["bare_args"] for r in records)
     cov["bare_zero_arguments"] = sum(r["bare_zero_args"] for r in records)
     cov["settings_flips"] = sum(r["flips"] for r in records)
